@@ -268,9 +268,9 @@ pub fn run_profile(a: &RunArgs, profile: &str, exe: &str, replay_dir: &str) -> P
                 } else {
                     *total.counters.entry("probe:load-died-(outside-this-property's-quantifier)".into()).or_insert(0) += 1;
                 }
-                if deaths > 6000 {
+                if deaths > 1000 {
                     if !truncated {
-                        eprintln!("NOTE: more than 6000 worker deaths; remaining runs of dying workers are not explored");
+                        eprintln!("NOTE: more than 1000 worker deaths; remaining runs of dying workers are not explored");
                         truncated = true;
                     }
                     active -= 1;
